@@ -885,6 +885,31 @@ fn feature_sequence(unlisted: &[Ep], all: &[Ep], s0: u64, picks: &[u64]) -> Swee
     let related: Vec<&Ep> = old_eps.iter().filter(|e| words(&e.name).iter().any(|w| new_words.contains(w))).cloned().collect();
     let narrow = s0 / 7 % 3 + 2; // 2..4 pool positions per argument
     let mut calls: Vec<(Ep, Vec<u64>, u64)> = vec![];
+    if s0 / 11 % 2 == 0 {
+        // every new entry point and every related older one once, in a random order (a longer protocol - nominate, add, remove,
+        // accept - is met as one of the orderings), all arguments from a palette of two values
+        let mut pool: Vec<&Ep> = new_eps.iter().cloned().chain(related.iter().cloned()).collect();
+        let mut k = 0u64;
+        while !pool.is_empty() && calls.len() < 8 {
+            let i = (mix(s0, 500 + k) % pool.len() as u64) as usize;
+            let ep = pool.remove(i);
+            // (half of these sequences: one value per parameter *name* - every call's `account` is the same account)
+            let seeds: Vec<u64> = (0..ep.types.len() as u64)
+                .map(|j| {
+                    if s0 / 13 % 2 == 0 {
+                        let h = ep.names.get(j as usize).map(|n| n.bytes().fold(7u64, |a, b| a.wrapping_mul(31).wrapping_add(b as u64))).unwrap_or(j);
+                        mix(s0, 2000 + h % 97) % 64
+                    } else {
+                        mix(s0, 1000 + mix(s0 ^ k, j) % 2) % 64
+                    }
+                })
+                .collect();
+            calls.push((ep.clone(), seeds, s0 % 5));
+            k += 1;
+        }
+        let (ep, seeds, pick) = calls.remove(0);
+        return SweepCase { ep, seeds, pick, open_windows: 0, more: calls };
+    }
     for (k, p) in picks.iter().enumerate() {
         let ep: &Ep = if p % 3 != 0 || old_eps.is_empty() {
             new_eps[(p / 3 % new_eps.len() as u64) as usize]
@@ -1128,6 +1153,7 @@ fn step(sw: &SweepWorld, ep: &Ep, seeds: &[u64], pick: u64, cx: &mut Cx, rule: R
     // earlier call of the sequence that named `new` (two-step hand-overs: proposed by the holder, accepted by the successor)
     let backed = |holder: &Address, new: &Address| -> bool { authorised(holder) || sw.history.borrow().iter().any(|(s, n)| s.contains(holder) && n.contains(new)) };
     let what = format!("{}::{}({:?})", ep.contract, ep.name, ep.types);
+    let mut voided: Vec<Address> = vec![];
     match rule {
         Rule::Announce => {
             for e in evs.iter().filter(|e| e.0 == sw.w.gw.id && e.1.first() == Some(&sym("contract_called"))) {
@@ -1193,8 +1219,9 @@ fn step(sw: &SweepWorld, ep: &Ep, seeds: &[u64], pick: u64, cx: &mut Cx, rule: R
                         return Err(format!("{} changed the operator set without the authorisation of its owner at that moment (in this call, or - for a new operator - in an earlier call naming it)", what));
                     }
                     if !*a {
-                        // a removal voids whatever named the removed address before
+                        // a removal voids whatever named the removed address before (and this call does not name it as a newcomer)
                         sw.history.borrow_mut().iter_mut().for_each(|h| h.1.retain(|x| x != all[k]));
+                        voided.push(all[k].clone());
                     }
                 }
             }
@@ -1225,6 +1252,7 @@ fn step(sw: &SweepWorld, ep: &Ep, seeds: &[u64], pick: u64, cx: &mut Cx, rule: R
                     }
                     if !*a {
                         sw.history.borrow_mut().iter_mut().for_each(|h| h.1.retain(|x| x != who));
+                        voided.push(who.clone());
                     }
                 }
             }
@@ -1351,6 +1379,7 @@ fn step(sw: &SweepWorld, ep: &Ep, seeds: &[u64], pick: u64, cx: &mut Cx, rule: R
     }
     let _ = ScVal::Void;
     if ok {
+        let named: Vec<Address> = named.into_iter().filter(|x| !voided.contains(x)).collect();
         sw.history.borrow_mut().push((signers.clone(), named));
     }
     Ok(true)
